@@ -277,6 +277,43 @@ fn related_variant(s: &str, r: &mut Rng) -> String {
 // C19 in-process: history and schedule independence
 
 /// history: each input is lexed first in a fresh thread, after K other inputs, and twice in a row
+/// Result plus the hooked end-of-input configuration (mode stack, macro nesting level, pending
+/// statement frames, live checkpoint) and the checkpoint/rollback decision string: everything
+/// that is observable about one call. For the history and schedule relations of C19 all of it
+/// must be a function of the source text alone.
+pub fn outcome_and_state(s: &str, st: Option<&mut Stats>) -> Vec<u8> {
+    let ex = exec(s);
+    let mut bytes = match &ex.outcome {
+        Outcome::Ok(res) => canon(s, res, CanonOpts::default()),
+        Outcome::Panic(p) => format!("PANIC {}", p.signature()).into_bytes(),
+        Outcome::Budget(b) => format!("BUDGET {}", b.counter).into_bytes(),
+        Outcome::Refused(e) => format!("REFUSED {e}").into_bytes(),
+    };
+    if let Some(e) = &ex.report.end_of_input {
+        bytes.extend_from_slice(format!("|EOI {:?} {} {:?} {}", e.modes, e.macro_nesting_level, e.pending_stat_stack, e.checkpoint_live).as_bytes());
+    }
+    bytes.extend_from_slice(format!("|D {} it={} tok={} err={}", ex.report.decisions, ex.report.main_iters, ex.report.tokens, ex.report.errors).as_bytes());
+    if let Some(st) = st {
+        st.observe_exec(&ex);
+        st.cases += 1;
+        if let Some(res) = ex.result() {
+            let v = View::new(s, res);
+            st.observe_view(&v);
+            let nontrivial = v.toks.len() >= 50 || ex.report.rollbacks > 0;
+            if nontrivial {
+                st.nontrivial(s.as_bytes(), || {
+                    let mut j = J::obj();
+                    j.set("input", clip(s, 200));
+                    j.set("tokens", v.toks.len());
+                    j.set("rollbacks", ex.report.rollbacks);
+                    j
+                });
+            }
+        }
+    }
+    bytes
+}
+
 pub fn c19_history(ctx: &Ctx, st: &mut Stats) {
     let mut r = ctx.rng(5);
     let n = ctx.draws(30_000, 600_000);
@@ -288,13 +325,14 @@ pub fn c19_history(ctx: &Ctx, st: &mut Stats) {
         if s.len() > 8000 {
             continue;
         }
-        let base = outcome_bytes("C19", &s, Some(st));
+        let base_res = outcome_bytes("C19", &s, Some(st));
+        let base = outcome_and_state(&s, None);
         // after other inputs
         for o in recent.iter().rev().take(r.range(1, 4)) {
             let _ = exec(o);
         }
-        let again = outcome_bytes("C19", &s, None);
-        let twice = outcome_bytes("C19", &s, None);
+        let again = outcome_and_state(&s, None);
+        let twice = outcome_and_state(&s, None);
         // hooks disarmed (plain call) must give the same result
         let plain = match exec_plain(&s) {
             Ok(res) => canon(&s, &res, CanonOpts::default()),
@@ -302,15 +340,16 @@ pub fn c19_history(ctx: &Ctx, st: &mut Stats) {
         };
         st.count("history_comparisons", 3);
         if base != again || base != twice {
-            st.violation(&Finding::new("C19.history", "", "the result for the same source changed after other calls in the process".into()), &[&s]);
+            let what = if base.split(|b| *b == b'|').next() == again.split(|b| *b == b'|').next() && base.split(|b| *b == b'|').next() == twice.split(|b| *b == b'|').next() { "state" } else { "result" };
+            st.violation(&Finding::new("C19.history", what, "the result (or the hooked lexer configuration / work counters) for the same source changed after other calls in the process".into()), &[&s]);
         }
-        if !(base.starts_with(b"PANIC") || base.starts_with(b"BUDGET")) && plain != base {
+        if !(base_res.starts_with(b"PANIC") || base_res.starts_with(b"BUDGET")) && plain != base_res {
             st.violation(&Finding::new("C19.hooks-armed-vs-disarmed", "", "result differs between hooks armed and disarmed".into()), &[&s]);
         }
         // fresh thread
         if i % 16 == 0 {
             let s2 = s.clone();
-            let fresh = std::thread::spawn(move || outcome_bytes("C19", &s2, None)).join();
+            let fresh = std::thread::spawn(move || outcome_and_state(&s2, None)).join();
             st.count("fresh_thread_comparisons", 1);
             match fresh {
                 Ok(f) if f == base => {}
@@ -322,13 +361,13 @@ pub fn c19_history(ctx: &Ctx, st: &mut Stats) {
         // content of the buffer
         if i % 4 == 0 && s.len() < 2000 {
             let variant = related_variant(&s, &mut r);
-            let expect_variant = outcome_bytes("C19", &variant, None);
+            let expect_variant = outcome_and_state(&variant, None);
             reuse.clear();
             reuse.push_str(&s);
             let _ = outcome_bytes("C19", &reuse, None);
             reuse.clear();
             reuse.push_str(&variant);
-            let got = outcome_bytes("C19", &reuse, None);
+            let got = outcome_and_state(&reuse, None);
             st.count("buffer_reuse_comparisons", 1);
             if got != expect_variant {
                 st.violation(
@@ -361,7 +400,7 @@ pub fn c19_schedule(seed: u64, tier: Tier, scale: f64, corpus: &Corpus, threads:
                 .filter(|s| s.len() <= 40_000)
                 .collect(),
         );
-        let baseline: Arc<Vec<Vec<u8>>> = Arc::new(inputs.iter().map(|s| outcome_bytes("C19", s, Some(st))).collect());
+        let baseline: Arc<Vec<Vec<u8>>> = Arc::new(inputs.iter().map(|s| outcome_and_state(s, Some(st))).collect());
         let barrier = Arc::new(Barrier::new(threads));
         let mut handles = Vec::new();
         for t in 0..threads {
@@ -378,7 +417,7 @@ pub fn c19_schedule(seed: u64, tier: Tier, scale: f64, corpus: &Corpus, threads:
                 barrier.wait();
                 for &i in &order {
                     let a = t0.elapsed().as_nanos() as u64;
-                    let got = outcome_bytes("C19", &inputs[i], None);
+                    let got = outcome_and_state(&inputs[i], None);
                     let b = t0.elapsed().as_nanos() as u64;
                     spans.push((a, b));
                     if got != baseline[i] {
